@@ -211,13 +211,29 @@ class SqlRunner:
         self.crashes = 0
 
     def _start(self):
-        def limit():
-            # address-space limit: a runaway statement (e.g. a scan that keeps reading its own appends) must kill
-            # the child, not the sandbox
-            import resource
-            resource.setrlimit(resource.RLIMIT_AS, (self.mem_gb << 30, self.mem_gb << 30))
         self.p = subprocess.Popen([GVH, "sql"], stdin=subprocess.PIPE, stdout=subprocess.PIPE,
-                                  stderr=subprocess.PIPE, text=True, env=ENV, bufsize=1, preexec_fn=limit)
+                                  stderr=subprocess.PIPE, text=True, env=ENV, bufsize=1)
+        self.rss_killed = False
+
+        def watchdog(p, limit_bytes):
+            # resident-set watchdog: a runaway statement (e.g. a scan that keeps reading its own appends) must kill the
+            # child, not the sandbox. (RLIMIT_AS is not usable: thread stacks and malloc arenas of the engine's thread
+            # pools reserve many GiB of address space that is never touched.)
+            path = f"/proc/{p.pid}/statm"
+            while p.poll() is None:
+                try:
+                    with open(path) as f:
+                        rss = int(f.read().split()[1]) * 4096
+                except Exception:
+                    return
+                if rss > limit_bytes:
+                    self.rss_killed = True
+                    try:
+                        p.kill()
+                    except Exception:
+                        pass
+                    return
+                time.sleep(0.05)
         import threading
         self.errbuf = []
 
@@ -227,6 +243,7 @@ class SqlRunner:
                 if len(buf) > 200:
                     del buf[:100]
         threading.Thread(target=drain, args=(self.p, self.errbuf), daemon=True).start()
+        threading.Thread(target=watchdog, args=(self.p, self.mem_gb << 30), daemon=True).start()
 
     def run(self, stmts, threads=4, timeout=None):
         """Returns list of per-statement results, or {'crash': stderr tail} / {'timeout': True}.
@@ -261,18 +278,20 @@ class SqlRunner:
             if not r:
                 if self.p.poll() is not None:
                     tail = "".join(self.errbuf[-8:])
+                    killed = self.rss_killed
                     self._kill()
                     self.crashes += 1
-                    return {"crash": tail[-600:]}
+                    return {"crash": (f"resident memory exceeded {self.mem_gb} GiB (killed by the watchdog) " if killed else "") + tail[-600:]}
                 continue
             line = self.p.stdout.readline()
             if not line:
                 time.sleep(0.05)
                 tail = "".join(self.errbuf[-8:])
                 rc = self.p.poll()
+                killed = self.rss_killed
                 self._kill()
                 self.crashes += 1
-                return {"crash": tail[-600:], "rc": rc}
+                return {"crash": (f"resident memory exceeded {self.mem_gb} GiB (killed by the watchdog) " if killed else "") + tail[-600:], "rc": rc}
             try:
                 msg = json.loads(line)
             except json.JSONDecodeError:
